@@ -167,8 +167,8 @@ def validate(ctx, trace, max_reports_per_sig=1):
             inv, len(drift), json.dumps(sc[0]), json.dumps(sc[1])[:1500]))
     if drift:
         ctx.stage("drift-monitor-failures", count=len(drift), first="%s %s" % (drift[0][0], drift[0][1][0]["sig"]))
-    ctx.cov["traces_validated_against_impl"] += len(spans)
-    ctx.cov["trace_events_validated"] += len(evs) - len(spans)
+    ctx.add("traces_validated_against_impl", len(spans))
+    ctx.add("trace_events_validated", len(evs) - len(spans))
     return drift
 
 
